@@ -105,6 +105,13 @@ def gen(rng, tier):
         out.append(Case('kvcheck', "kvcheck %d %s %d" % (p, show_list(bad), n2), dict(kv=bad, p=p, n=n2, orig=kv)))
         a = F(rng.randint(-3, 3)); b = a + F(rng.randint(1, 9), rng.choice([1, 2, 3])); m = rng.randint(1, 40)
         out.append(Case('linspace', "linspace %s %s %d" % (fr(a), fr(b), m), dict(a=a, b=b, m=m)))
+    # list variants and refusals (oracle only): basis_functions / find_spans over parameter lists; empty / non-list knot vectors,
+    # zero degree / size are rejected
+    for _ in range(8 if tier == 'quick' else 80):
+        p = rng.randint(1, 5); kv, n = G.knots(rng, p)
+        us = [G.param(rng, kv, p, n) for _ in range(rng.randint(1, 4))]
+        out.append(Case('plural', None, dict(p=p, n=n, kv=kv, us=us)))
+    out.append(Case('refuse-kv', None, dict()))
     # tolerance probes: an interior knot at half / twice the binary-search tolerance from the end
     for mul in (F(1, 2), F(2)):
         p = 2
@@ -215,6 +222,41 @@ def oracle(c):
             return "clamped knot vector does not have end multiplicity p+1"
         if d['clamped'] and (kv[p + 1] == 0 and n > p + 1):
             return "clamped knot vector has end multiplicity above p+1"
+        return None
+    if k == 'plural':
+        p, n, us = d['p'], d['n'], d['us']
+        U = _kv(d); qu = [q(u) for u in us]
+        spans = helpers.find_spans(p, U, n, qu)
+        if list(spans) != [helpers.find_span_linear(p, U, n, u) for u in qu]:
+            return "find_spans over a parameter list differs from find_span_linear per parameter"
+        bs = helpers.basis_functions(p, U, spans, qu)
+        if [list(b) for b in bs] != [list(helpers.basis_function(p, U, sp, u)) for sp, u in zip(spans, qu)]:
+            return "basis_functions over a parameter list differs from basis_function per parameter"
+        return None
+    if k == 'refuse-kv':
+        import io, contextlib
+
+        def raises(f, *a):
+            try:
+                with contextlib.redirect_stdout(io.StringIO()):      # the library prints a message before re-raising
+                    f(*a)
+            except Exception:
+                return True
+            return False
+        if not raises(knotvector.normalize, []):
+            return "normalize accepts an empty knot vector"
+        if not raises(knotvector.normalize, 5):
+            return "normalize accepts a number as knot vector"
+        if not raises(knotvector.generate, 0, 4) or not raises(knotvector.generate, 2, 0):
+            return "generate accepts degree 0 / no control points"
+        for bad in ([], 5):
+            try:
+                with contextlib.redirect_stdout(io.StringIO()):
+                    acc = knotvector.check(2, bad, 3)
+            except Exception:
+                acc = False
+            if acc:
+                return "check accepts %r as a knot vector" % (bad,)
         return None
     if k == 'kvnorm':
         kv = d['kv']
